@@ -57,7 +57,7 @@ func (h *heapModel) zero(t types.Type) hval {
 	case *types.Struct:
 		fs := map[string]hval{}
 		for i := 0; i < u.NumFields(); i++ {
-			fs[u.Field(i).Name()] = h.zero(u.Field(i).Type())
+			fs[core.FieldName(u, i)] = h.zero(u.Field(i).Type())
 		}
 		return hval{k: 'S', fs: fs}
 	}
@@ -69,7 +69,7 @@ func (h *heapModel) load(key string, t types.Type) hval {
 	if st, ok := t.Underlying().(*types.Struct); ok && isSchemataStruct(st) {
 		fs := map[string]hval{}
 		for i := 0; i < st.NumFields(); i++ {
-			fs[st.Field(i).Name()] = h.load(key+"."+st.Field(i).Name(), st.Field(i).Type())
+			fs[core.FieldName(st, i)] = h.load(key+"."+core.FieldName(st, i), st.Field(i).Type())
 		}
 		return hval{k: 'S', fs: fs}
 	}
@@ -93,7 +93,7 @@ func (h *heapModel) store(key string, v hval) {
 }
 
 func isSchemataStruct(st *types.Struct) bool {
-	return st.NumFields() == 2 && st.Field(0).Name() == "one" && st.Field(1).Name() == "multiple"
+	return st.NumFields() == 2 && core.FieldName(st, 0) == "one" && core.FieldName(st, 1) == "multiple"
 }
 
 func (h *heapModel) elems(s hval) []hval {
@@ -174,7 +174,7 @@ func (h *heapModel) run(f *ssa.Function, args []hval) []hval {
 			case *ssa.Field:
 				base := get(x.X)
 				st := x.X.Type().Underlying().(*types.Struct)
-				env[x] = base.fs[st.Field(x.Field).Name()]
+				env[x] = base.fs[core.FieldName(st, x.Field)]
 			case *ssa.IndexAddr:
 				base, idx := get(x.X), get(x.Index)
 				switch base.k {
